@@ -359,6 +359,18 @@ static int cmd_exhaust(const char *path, uint64_t seed, const char *tier, unsign
                 }
             }
         } else {
+            /* whole-byte and whole-word inversions (all-ones bursts of 8, 16, 32 bits) at every bit offset: cheap, and the
+             * classic blind spot of a table-driven checksum with one bad table entry */
+            for (unsigned k = 0; k < 3; k++) {
+                unsigned len = 8u << k;
+                if (len > maxburst || off + len > bits) continue;
+                uint32_t mask = burst_mask(off, len, "ones", 0);
+                apply_burst(d, off, len, "ones", 0);
+                snprintf(desc, sizeof desc, "{\"off\":%llu,\"len\":%u,\"mask\":%u}", (unsigned long long)off, len, mask);
+                must_refuse(C_BURST, d, n, desc);
+                apply_burst(d, off, len, "ones", 0);
+                g_cls[C_BURST].distinct++;
+            }
             uint32_t seen[3]; unsigned seenl[3]; int ns = 0;
             for (int p = 0; p < 3; p++) {
                 unsigned maxl = bits - off < maxburst ? (unsigned)(bits - off) : maxburst;
